@@ -293,13 +293,82 @@ fn lexerdef() -> &'static LRNonStreamingLexerDef<DefaultLexerTypes<u32>> {
         // match no rule at all: the other way lexing stops.
         let src = "%%\na+ \"A\"\nb+ \"B\"\nx \"X\"\n\u{e9} \"E\"\n[ \\n\\r]+ ;\n";
         let mut def = LRNonStreamingLexerDef::<DefaultLexerTypes<u32>>::from_str(src).expect("lexer definition");
-        let mut map = std::collections::HashMap::new();
-        map.insert("A", 0u32);
-        map.insert("B", 1u32);
-        map.insert("E", 2u32);
+        // token ids as the grammar of `parser_tables` numbers them; "X" stays without an id
+        let (grm, _) = parser_tables();
+        let map: std::collections::HashMap<&str, u32> = grm.tokens_map().iter().map(|(k, v)| (*k, v.0)).collect();
         let _ = def.set_rule_ids(&map);
         def
     })
+}
+
+/// A small grammar over the real lexer's tokens, so that real parse errors with real repair
+/// sequences (Insert / Delete / Shift of lexemes that may contain or follow newlines) reach
+/// `LexParseError::pp`.
+fn parser_tables() -> &'static (cfgrammar::yacc::YaccGrammar<u32>, lrtable::StateTable<u32>) {
+    static T: std::sync::OnceLock<(cfgrammar::yacc::YaccGrammar<u32>, lrtable::StateTable<u32>)> = std::sync::OnceLock::new();
+    T.get_or_init(|| {
+        let grm = cfgrammar::yacc::YaccGrammar::<u32>::new_with_storaget(
+            cfgrammar::yacc::YaccKind::Original(cfgrammar::yacc::YaccOriginalActionKind::GenericParseTree),
+            "%start S\n%%\nS: 'A' S 'B' | 'E' S | ;\n",
+        )
+        .expect("grammar");
+        let (_, st) = lrtable::from_yacc(&grm, lrtable::Minimiser::Pager).expect("table");
+        (grm, st)
+    })
+}
+
+/// `pp` of a parse error as its documentation describes it: position of the error lexeme, then
+/// the numbered repair sequences; directly adjacent Deletes are merged into one, newlines in
+/// quoted text are escaped.
+fn ref_pp(p: &str, e: &lrpar::ParseError<lrlex::DefaultLexeme<u32>, u32>, grm: &cfgrammar::yacc::YaccGrammar<u32>) -> String {
+    use lrpar::{Lexeme, ParseRepair};
+    let at = e.lexeme().span().start();
+    let mut out = format!("Parsing error at line {} column {}.", ref_line(p, at), ref_col(p, at));
+    let n = e.repairs().len();
+    if n == 0 {
+        out.push_str(" No repair sequences found.");
+        return out;
+    }
+    out.push_str(" Repair sequences found:");
+    let digits = |x: usize| x.to_string().len();
+    for (i, rs) in e.repairs().iter().enumerate() {
+        out.push_str(&format!("\n  {}{}: ", " ".repeat(digits(n) - digits(i + 1) + 1), i + 1));
+        let mut items: Vec<String> = vec![];
+        let mut k = 0;
+        while k < rs.len() {
+            match rs[k] {
+                ParseRepair::Insert(t) => {
+                    items.push(format!("Insert {}", grm.token_epp(t).unwrap_or("?")));
+                    k += 1;
+                }
+                ParseRepair::Shift(l) => {
+                    items.push(format!("Shift {}", p[l.span().start()..l.span().end()].replace('\n', "\\n")));
+                    k += 1;
+                }
+                ParseRepair::Delete(l) => {
+                    let st = l.span().start();
+                    let mut end = l.span().end();
+                    k += 1;
+                    while k < rs.len() {
+                        match rs[k] {
+                            ParseRepair::Delete(l2) if l2.span().start() == end => {
+                                end = l2.span().end();
+                                k += 1;
+                            }
+                            _ => break,
+                        }
+                    }
+                    items.push(format!("Delete {}", p[st..end].replace('\n', "\\n")));
+                }
+                _ => {
+                    items.push("?".into());
+                    k += 1;
+                }
+            }
+        }
+        out.push_str(&items.join(", "));
+    }
+    out
 }
 
 fn real_lexer_checks(rep: &mut NReport, p: &str) {
@@ -322,6 +391,30 @@ fn real_lexer_checks(rep: &mut NReport, p: &str) {
         *rep.probes.entry("texts_where_the_real_lexer_stops_at_an_error").or_insert(0) += 1;
     }
     use lrpar::{LexError, Lexeme};
+    if !items.is_empty() && items.iter().all(|x| x.is_ok()) && p.len() <= 64 {
+        let (grm, st) = parser_tables();
+        // as a simulated process (hash seed from the text, simulated clock): which repairs are
+        // found, and in which order, is then a function of the text alone
+        let pol = crate::seams::ClockPolicy { tick_ns: 1_000, jumps: vec![] };
+        let (r, _) = crate::seams::sim_process(fnv(p.as_bytes()), Some(&pol), || lrpar::RTParserBuilder::<u32, DefaultLexerTypes<u32>>::new(grm, st).parse_map(&lexer, &|_| (), &|_, _| ()).1);
+        if let crate::seams::SimOutcome::Ok(errs) = r {
+            for e in errs {
+                if let LexParseError::ParseError(pe) = &e {
+                    rep.queries += 1;
+                    *rep.probes.entry("parse_errors_pretty_printed").or_insert(0) += 1;
+                    if pe.repairs().iter().any(|s| s.windows(2).any(|w| matches!((&w[0], &w[1]), (lrpar::ParseRepair::Delete(_), lrpar::ParseRepair::Delete(_))))) {
+                        *rep.probes.entry("pretty_printed_sequences_with_consecutive_deletes").or_insert(0) += 1;
+                    }
+                    let exp = ref_pp(p, pe, grm);
+                    match catch_unwind(AssertUnwindSafe(|| e.pp(&lexer, &|t| grm.token_epp(t)))) {
+                        Ok(m) if m == exp => {}
+                        Ok(m) => push_finding(rep, "parse-error-pp", format!("pp of a parse error: {:?}, expected {:?}; text {:?}", m, exp, p), None),
+                        Err(_) => push_finding(rep, "parse-error-pp-panic", format!("pp of a parse error panicked; text {:?}", p), None),
+                    }
+                }
+            }
+        }
+    }
     let mut spans: Vec<Span> = vec![];
     for it in &items {
         match it {
@@ -378,9 +471,10 @@ fn real_lexer_checks(rep: &mut NReport, p: &str) {
 /// not end at a line start (where the extent is the known finding), every covered line is
 /// echoed as `<line>| <text>` and underlined from the column of the span's first byte on it.
 fn underline_checks(rep: &mut NReport, p: &str) {
-    if !p.is_ascii() || p.contains('\r') || p.is_empty() || p.len() > 64 {
+    if p.contains('\r') || p.is_empty() || p.len() > 64 {
         return;
     }
+    use unicode_width::UnicodeWidthStr;
     let path = std::path::PathBuf::from("t");
     let fmt = SpannedDiagnosticFormatter::new(p, &path);
     let bs = boundaries(p);
@@ -404,8 +498,9 @@ fn underline_checks(rep: &mut NReport, p: &str) {
                 let ln = ref_line(p, pos);
                 let seg_end = e.min(le);
                 exp.push_str(&format!("{}| {}\n", ln, &p[ls..le]));
-                exp.push_str(&" ".repeat(ln.to_string().len() + 2 + (pos - ls)));
-                exp.push_str(&"^".repeat((seg_end - pos).max(1)));
+                // columns are display columns (unicode-width's `width`, as terminals show them)
+                exp.push_str(&" ".repeat(ln.to_string().len() + 2 + UnicodeWidthStr::width(&p[ls..pos])));
+                exp.push_str(&"^".repeat(UnicodeWidthStr::width(&p[pos..seg_end]).max(1)));
                 if e <= le {
                     exp.push_str(" msg");
                     break;
@@ -436,7 +531,8 @@ fn underline_checks(rep: &mut NReport, p: &str) {
     }
 }
 
-const ALPHABET: &[&str] = &["a", "b", " ", "\n", "\n", "\r\n", "\r", "é", "❤", "𝄞", "x", "\n"];
+// "→" and "§" are of East-Asian-ambiguous width (1 column, 2 under CJK rules)
+const ALPHABET: &[&str] = &["a", "b", " ", "\n", "\n", "\r\n", "\r", "é", "❤", "𝄞", "x", "\n", "→", "§"];
 
 pub fn generate(r: &mut Rng, max_bytes: usize) -> NScenario {
     let mut text = String::new();
